@@ -193,9 +193,13 @@ def _filter_sym(reg, eng, st, f, v):
 def b_isinstance(reg, eng, st, args, kwargs, node):
     v = args[0]
     tn = node.args[1]
-    names = [e.id for e in tn.elts] if isinstance(tn, ast.Tuple) else [tn.id] if isinstance(tn, ast.Name) else None
-    if names is None:
+    def cls_name(e):
+        if isinstance(e, ast.Name):
+            return e.id
+        if isinstance(e, ast.Attribute) and isinstance(e.value, ast.Name):
+            return f"{e.value.id}.{e.attr}"
         raise OutOfSubset("isinstance target")
+    names = [cls_name(e) for e in tn.elts] if isinstance(tn, ast.Tuple) else [cls_name(tn)]
     res = reg.isinstance_(eng, v, names)
     return [(st, vbool(res))]
 
